@@ -257,6 +257,8 @@ impl ParserAction {
 
         write!(sink, "{}", result)
             .expect("Cannot write to output");
+        sink.flush()
+            .expect("Cannot write to output");
     }
 
     pub fn selected_input(&self) -> Result<NamedSource> {
